@@ -195,7 +195,7 @@ def use(row: Row) -> int:
 	return {a: lib, b: main}, [a, b]
 
 
-def describe(sym, depth: int = 6) -> tuple:
+def describe(sym, depth: int = 12) -> tuple:
 	if depth <= 0:
 		return ('...',)
 	try:
